@@ -16,4 +16,14 @@ CHECKS['C01'] = {
   'text': 'Decides necessary conditions of "never raises, never hangs" that are visible on every path: DOM work only inside the log-mode window (R01.a), every production callback returns a parser state on all paths (R01.b), tokenizer totality/progress (R01.c), no exponentially ambiguous token/helper pattern (R01.d; validation patterns in the thorough tier), at most one evaluation of a child text per serializer path (R01.e), token-value helpers only on typed tokens (R01.f). Does not decide absence of data-dependent exceptions, recursion depth or cyclic @import.',
   'note': 'Name-based call resolution (self.X, nested defs, New.productions); known findings: exponential STRING/URI token patterns (known_findings.json).',
 }
+CHECKS['C09'] = {
+  'technique': 'who-may-write query on rule lists + extraction of the insertRule position tables against the rank order + CFG pairing of insertion and parent link (with exceptional edges from the may-raise summaries)',
+  'text': 'Treats the ordering clause as an inductive invariant and decides its static obligations: the set of writers of a rule list is closed (R09.a), each per-kind position scan of insertRule covers all lower/higher ranks and ordered-add scans stop only at safe kinds (R09.b), parse-time levels equal the ranks (R09.c), the parent link is set on exactly the paths that insert, deletions detach, setters adopt (R09.d), nested lists deny the document-level kinds before inserting (R09.e). Does not decide arbitrary histories beyond this induction (e.g. namespace write-through) nor serialise/reparse.',
+  'note': 'Table extraction is shape dependent (if/elif chain on rule.type, for-loops over self._cssRules slices): a rewrite gives ANALYSIS-ERROR, not a verdict. May-raise summaries are name-resolved over-approximations; one exemption (_updateVariables) is listed with its reason.',
+}
+CHECKS['C12'] = {
+  'technique': 'CFG acquire/release pairing with exceptional edges (error mode, serializer swap, _level), reaching-definition query on the restored value, who-may-write inventory of process-wide state, scratch-state reset inclusion',
+  'text': 'Decides the structural half of "no hidden state": every switch of the global error mode / global serializer is undone on all exits and restores a value read in the same call (R12.a/b); the writers of each process-wide object named in the property are exactly the sanctioned ones (R12.c); scratch state written during a production parse is reset where a parse starts (R12.d); serializer instance counters are balanced (R12.e). Does not decide independence from arbitrary earlier call sequences.',
+  'note': 'Any statement containing a call is treated as may-raise for the pairing rules. Known finding: experimental indentSpecificities state.',
+}
 NOT_APPLICABLE = {}
